@@ -653,7 +653,14 @@ func (x *Unit) spCall(st *State, e *ast.CallExpr, c *specCtx) Val {
 			x.specErr(e, "cannot resolve type")
 			return Val{True, boolT}
 		}
-		return Val{Eq(x.uf("pooltype", SInt, arg(0).T), IntLit(int64(x.u.TypeID(t)))), boolT}
+		pv := arg(0)
+		if pv.Sort != SInt {
+			// a sync.Pool held by value: the pool is identified by its address, as at the Get/Put call sites
+			if lv := x.specLV(st, e.Args[0], c); lv != nil {
+				pv = Val{x.interiorAddr(st, lv, e), intT}
+			}
+		}
+		return Val{Eq(x.uf("pooltype", SInt, pv.T), IntLit(int64(x.u.TypeID(t)))), boolT}
 	case "once":
 		lv := x.specLV(st, e.Args[0], c)
 		if lv == nil {
